@@ -72,6 +72,28 @@ impl CustomDs {
     }
 }
 
+/// A data source whose methods themselves use the crate (a pure, total function all the same): an analysis in progress
+/// must not share hidden state (a per-thread scratch buffer, a cache) with analyses started from inside the callback.
+pub struct ReentrantDs<'a>(pub &'a CustomDs);
+impl<'a> ReentrantDs<'a> {
+    fn poke() {
+        let _ = InitialInfo::new("\u{2067}a\u{2068}\u{5D0}(\u{2066}", None);
+        let b = BidiInfo::new("\u{5D0}(a\u{2067}b)\u{2069}1", None);
+        let _ = b.reorder_line(&b.paragraphs[0], b.paragraphs[0].range.clone());
+        let _ = unicode_bidi::get_base_direction("\u{2067}x\u{2069}\u{5D0}");
+    }
+}
+impl<'a> BidiDataSource for ReentrantDs<'a> {
+    fn bidi_class(&self, c: char) -> BidiClass {
+        Self::poke();
+        self.0.bidi_class(c)
+    }
+    fn bidi_matched_opening_bracket(&self, c: char) -> Option<BidiMatchedOpeningBracket> {
+        Self::poke();
+        self.0.bidi_matched_opening_bracket(c)
+    }
+}
+
 /// A ZERO-SIZED caller-supplied data source (nothing about the type `D` — its size, its being `Copy`, … — may stand
 /// in for "this is the built-in data"): upper-case ASCII is R, ASCII digits are AN, `<` `>` are the only bracket pair,
 /// the nine explicit formatting characters keep their class, everything else is L.  `zst_spec()` is the same source
@@ -162,6 +184,10 @@ pub enum Input {
     Meta12 { enc: Enc, dir: Dir, text_a: Vec<u32>, ds_a: DsSpec, text_b: Vec<u32>, ds_b: DsSpec },
     /// C13: replace the content of a matched isolate
     Meta13 { dir: Dir, prefix: Vec<u32>, init: u32, c1: Vec<u32>, c2: Vec<u32>, suffix: Vec<u32> },
+    /// C07 / C05 / C06 at a size the Model cannot replay: `(a א)×n` as UTF-16 is one LTR paragraph of 2n runs whose
+    /// reordering is the text itself; a recursion per run or per character overflows the stack (an abort, which no
+    /// catch_unwind sees: the harness process dies and the check reports the broken pipeline)
+    Stress { n: usize },
     /// C20: digest of all outputs for one text (compared across feature builds)
     Digest { enc: Enc, dir: Dir, text: Vec<u32> },
     /// C20: serde round trip of every level
@@ -253,6 +279,37 @@ pub fn parse_ds(s: &str) -> Option<DsSpec> {
     Some(DsSpec { entries, dflt })
 }
 
+/// A text handed to the crate as a SUB-SLICE of a larger buffer, at an offset that varies from case to case: the
+/// crate must not depend on where its input lies (alignment, being a whole allocation).
+pub struct Sh8(String, usize);
+impl Sh8 {
+    pub fn as_str(&self) -> &str {
+        &self.0[self.1..]
+    }
+}
+pub struct Sh16(Vec<u16>, usize);
+impl Sh16 {
+    pub fn as_slice(&self) -> &[u16] {
+        &self.0[self.1..]
+    }
+}
+fn shift_of(text: &[u32]) -> usize {
+    (text.len() + text.iter().fold(0usize, |a, &c| a.wrapping_add(c as usize))) % 8
+}
+pub fn shifted8(text: &[u32]) -> Sh8 {
+    let k = shift_of(text);
+    let mut b = String::with_capacity(k + text.len() * 4);
+    for _ in 0..k { b.push('#'); }
+    b.push_str(&to_string8(text));
+    Sh8(b, k)
+}
+pub fn shifted16(text: &[u32]) -> Sh16 {
+    let k = shift_of(text);
+    let mut b: Vec<u16> = vec![0x23; k];
+    b.extend(to_units16(text));
+    Sh16(b, k)
+}
+
 pub fn to_string8(text: &[u32]) -> String {
     text.iter().map(|&c| char::from_u32(c).unwrap_or('\u{FFFD}')).collect()
 }
@@ -260,8 +317,26 @@ pub fn to_units16(text: &[u32]) -> Vec<u16> {
     text.iter().map(|&u| u as u16).collect()
 }
 
+/// panics raised anywhere (counted by the panic hook) and panics that arrived at one of the harness's own guards
+pub static PANICS_RAISED: std::sync::atomic::AtomicUsize = std::sync::atomic::AtomicUsize::new(0);
+pub static PANICS_SEEN: std::sync::atomic::AtomicUsize = std::sync::atomic::AtomicUsize::new(0);
+
 fn guard<T>(f: impl FnOnce() -> T) -> Option<T> {
-    catch_unwind(AssertUnwindSafe(f)).ok()
+    let r = catch_unwind(AssertUnwindSafe(f)).ok();
+    if r.is_none() {
+        PANICS_SEEN.fetch_add(1, std::sync::atomic::Ordering::SeqCst);
+    }
+    r
+}
+
+/// `run`, plus ` HIDDENPANIC=<n>` when more panics were raised during the operation than the harness caught: the
+/// crate panicked and swallowed it (std::panic::catch_unwind inside the crate) — still a panic for C07
+pub fn run_counted(id: &str, mode: &str, input: &Input) -> String {
+    use std::sync::atomic::Ordering::SeqCst;
+    let (r0, s0) = (PANICS_RAISED.load(SeqCst), PANICS_SEEN.load(SeqCst));
+    let line = run(id, mode, input);
+    let hidden = (PANICS_RAISED.load(SeqCst) - r0).saturating_sub(PANICS_SEEN.load(SeqCst) - s0);
+    if hidden > 0 { format!("{} HIDDENPANIC={}", line, hidden) } else { line }
 }
 fn or_panic(o: Option<String>) -> String {
     o.unwrap_or_else(|| "PANIC".to_string())
@@ -357,6 +432,7 @@ pub fn parse_line(line: &str) -> Option<(String, String, Input)> {
             ds: parse_ds(key(&f, "DS")),
             line: (key(&f, "la").parse().unwrap(), key(&f, "lb").parse().unwrap()),
         },
+        "stress" => Input::Stress { n: key(&f, "n").parse().unwrap() },
         "metalong" => Input::MetaLong {
             enc: parse_enc(key(&f, "enc")),
             tail: parse_hexlist(key(&f, "T")),
@@ -495,12 +571,14 @@ fn analyse16<D: BidiDataSource>(ds: &D, s: &[u16], api: Api, dir: Dir) -> Analys
 
 pub fn analyse(enc: Enc, api: Api, dir: Dir, text: &[u32], ds: &Option<DsSpec>) -> Option<Analysis> {
     guard(|| match (enc, ds) {
-        (Enc::U8, None) => analyse8(&HardcodedBidiData, &to_string8(text), api, dir),
-        (Enc::U8, Some(spec)) if *spec == zst_spec() => analyse8(&ZstDs, &to_string8(text), api, dir),
-        (Enc::U16, Some(spec)) if *spec == zst_spec() => analyse16(&ZstDs, &to_units16(text), api, dir),
-        (Enc::U8, Some(spec)) => analyse8(&CustomDs::new(spec), &to_string8(text), api, dir),
-        (Enc::U16, None) => analyse16(&HardcodedBidiData, &to_units16(text), api, dir),
-        (Enc::U16, Some(spec)) => analyse16(&CustomDs::new(spec), &to_units16(text), api, dir),
+        (Enc::U8, None) => analyse8(&HardcodedBidiData, shifted8(text).as_str(), api, dir),
+        (Enc::U8, Some(spec)) if *spec == zst_spec() => analyse8(&ZstDs, shifted8(text).as_str(), api, dir),
+        (Enc::U16, Some(spec)) if *spec == zst_spec() => analyse16(&ZstDs, shifted16(text).as_slice(), api, dir),
+        (Enc::U8, Some(spec)) if shift_of(text) % 4 == 3 && text.len() <= 40 => analyse8(&ReentrantDs(&CustomDs::new(spec)), shifted8(text).as_str(), api, dir),
+        (Enc::U16, Some(spec)) if shift_of(text) % 4 == 3 && text.len() <= 40 => analyse16(&ReentrantDs(&CustomDs::new(spec)), shifted16(text).as_slice(), api, dir),
+        (Enc::U8, Some(spec)) => analyse8(&CustomDs::new(spec), shifted8(text).as_str(), api, dir),
+        (Enc::U16, None) => analyse16(&HardcodedBidiData, shifted16(text).as_slice(), api, dir),
+        (Enc::U16, Some(spec)) => analyse16(&CustomDs::new(spec), shifted16(text).as_slice(), api, dir),
     })
 }
 
@@ -671,7 +749,8 @@ pub fn run_line(enc: Enc, api: Api, dir: Dir, text: &[u32], ds: &Option<DsSpec>,
     let hd = HardcodedBidiData;
     let out = match enc {
         Enc::U8 => {
-            let s = to_string8(text);
+            let sh = shifted8(text);
+            let s: &str = sh.as_str();
             let infos: (Option<BidiInfo>, Option<ParagraphBidiInfo>) = guard(|| match (api, ds) {
                 (Api::B, None) => (Some(BidiInfo::new_with_data_source(&hd, &s, dir.level())), None),
                 (Api::B, Some(spec)) => (Some(BidiInfo::new_with_data_source(&CustomDs::new(spec), &s, dir.level())), None),
@@ -682,7 +761,8 @@ pub fn run_line(enc: Enc, api: Api, dir: Dir, text: &[u32], ds: &Option<DsSpec>,
             line_calls!(infos, &pinfo, a, b, is_b, conv)
         }
         Enc::U16 => {
-            let s = to_units16(text);
+            let sh = shifted16(text);
+            let s: &[u16] = sh.as_slice();
             let infos: (Option<utf16::BidiInfo>, Option<utf16::ParagraphBidiInfo>) = guard(|| match (api, ds) {
                 (Api::B, None) => (Some(utf16::BidiInfo::new_with_data_source(&hd, &s, dir.level())), None),
                 (Api::B, Some(spec)) => (Some(utf16::BidiInfo::new_with_data_source(&CustomDs::new(spec), &s, dir.level())), None),
@@ -992,6 +1072,9 @@ pub fn run(id: &str, mode: &str, input: &Input) -> String {
                         None => "-".to_string(),
                     })
                     .collect();
+                // "random access at an index returns ... nothing otherwise": also far beyond the text
+                let far16 = [usize::MAX, usize::MAX - 1, usize::MAX / 2, t.len() + 2, t.len() + 1000, 1 << 32];
+                let far_ok16 = far16.iter().all(|&i| i <= t.len() || t.char_at(i).is_none());
                 let ci: Vec<String> = t.char_indices().map(|(i, c)| format!("{}:{:X}", i, c as u32)).collect();
                 let il: Vec<String> = t.indices_lengths().map(|(i, l)| format!("{}:{}", i, l)).collect();
                 let ch: Vec<String> = t.chars().map(|c| format!("{:X}", c as u32)).collect();
@@ -1028,8 +1111,8 @@ pub fn run(id: &str, mode: &str, input: &Input) -> String {
                     }
                 }
                 format!(
-                    "LEN={} CA={} CI={} IL={} CH={} CL={} IT={} SUB={} METH={}",
-                    TextSource::len(t), ca.join(","), ci.join(","), il.join(","), ch.join(","), cl.join(","), outs.join(","), sub.join(","), meth
+                    "LEN={} CA={} CI={} IL={} CH={} CL={} IT={} SUB={} METH={} FAR={}",
+                    TextSource::len(t), ca.join(","), ci.join(","), il.join(","), ch.join(","), cl.join(","), outs.join(","), sub.join(","), meth, far_ok16 as u8
                 )
             });
             format!("{} => {}", q, or_panic(r))
@@ -1061,7 +1144,9 @@ pub fn run(id: &str, mode: &str, input: &Input) -> String {
                         }
                     }
                 }
-                format!("LEN={} CA={} CI={} IL={} CH={} CL={} SUB={}", n, ca.join(","), ci.join(","), il.join(","), ch.join(","), cl.join(","), sub.join(","))
+                let far8 = [usize::MAX, usize::MAX - 1, usize::MAX / 2, n + 2, n + 1000, 1 << 32];
+                let far_ok8 = far8.iter().all(|&i| i <= n || TextSource::char_at(t, i).is_none());
+                format!("LEN={} CA={} CI={} IL={} CH={} CL={} SUB={} FAR={}", n, ca.join(","), ci.join(","), il.join(","), ch.join(","), cl.join(","), sub.join(","), far_ok8 as u8)
             });
             format!("{} => {}", q, or_panic(r))
         }
@@ -1359,6 +1444,31 @@ pub fn run(id: &str, mode: &str, input: &Input) -> String {
             }
             format!("{} => A={} B={}", q, a_parts.join("|"), b_parts.join("|"))
         }
+        Input::Stress { n } => {
+            let q = format!("{} stress n={}", head, n);
+            let mut u: Vec<u16> = Vec::with_capacity(2 * n);
+            for _ in 0..*n { u.push(0x61); u.push(0x5D0); }
+            let r = guard(|| {
+                let b = utf16::BidiInfo::new(&u, None);
+                let p = b.paragraphs[0].clone();
+                let (lv, runs) = b.visual_runs(&p, p.range.clone());
+                let ro = b.reorder_line(&p, p.range.clone());
+                let q8 = utf16::ParagraphBidiInfo::new(&u, None);
+                let runs_p = q8.visual_runs(0..u.len()).1.len();
+                let s8: String = (0..*n).map(|_| "a\u{5D0}").collect();
+                let b8 = BidiInfo::new(&s8, None);
+                let p8 = b8.paragraphs[0].clone();
+                let runs8 = b8.visual_runs(&p8, p8.range.clone()).1.len();
+                let ro8 = b8.reorder_line(&p8, p8.range.clone());
+                format!(
+                    "PARAS={} RUNS={} RUNSP={} RUNS8={} LSUM={} SAME={}",
+                    b.paragraphs.len(), runs.len(), runs_p, runs8,
+                    lv.iter().map(|l| l.number() as usize).sum::<usize>(),
+                    (ro.as_ref() == u.as_slice() && ro8.as_ref() == s8.as_str()) as u8
+                )
+            });
+            format!("{} => {}", q, or_panic(r))
+        }
         Input::MetaLong { enc, tail, dir, n } => {
             let q = format!("{} metalong enc={} dir={} n={} T={}", head, enc_tag(*enc), dir.tag(), n, hexlist(tail));
             let tail_levels = |prefix_len: usize| -> String {
@@ -1366,10 +1476,34 @@ pub fn run(id: &str, mode: &str, input: &Input) -> String {
                 t.push(0x20);
                 let tail_units: Vec<u32> = if *enc == Enc::U16 { tail.clone() } else { tail.clone() };
                 t.extend(tail_units);
-                match analyse(*enc, Api::B, *dir, &t, &None) {
+                let levels = match analyse(*enc, Api::B, *dir, &t, &None) {
                     Some(a) => format!("l={};p={}", levels_str(&a.levels[prefix_len + 1..]), a.paras.len()),
                     None => "PANIC".to_string(),
+                };
+                // the whole paragraph as one line, both analysis types: line levels of the tail, number of runs beyond
+                // the prefix's, the reordered line without the prefix letters
+                let mut parts = vec![levels];
+                for api in [Api::B, Api::P] {
+                    let nunits = if *enc == Enc::U8 { to_string8(&t).len() } else { t.len() };
+                    parts.push(match run_line(*enc, api, *dir, &t, &None, 0, 0, nunits) {
+                        Some(c) => format!(
+                            "rl={};ro={};rep={}",
+                            or_panic(c.out.rl.as_ref().map(|v| levels_str(&v[prefix_len + 1..]))),
+                            or_panic(c.out.ro.as_ref().map(|v| hexlist(&v.0.iter().copied().filter(|&x| x != 0x61).collect::<Vec<u32>>()))),
+                            c.out.rep as u8
+                        ),
+                        None => "PANIC".to_string(),
+                    });
                 }
+                let bd = guard(|| if *enc == Enc::U8 {
+                    let s = to_string8(&t);
+                    format!("{}{}", dir_str(&unicode_bidi::get_base_direction(s.as_str())), dir_str(&unicode_bidi::get_base_direction_full(s.as_str())))
+                } else {
+                    let s = to_units16(&t);
+                    format!("{}{}", dir_str(&unicode_bidi::get_base_direction(s.as_slice())), dir_str(&unicode_bidi::get_base_direction_full(s.as_slice())))
+                });
+                parts.push(or_panic(bd));
+                parts.join("|")
             };
             format!("{} => A={} B={}", q, tail_levels(*n), tail_levels(1))
         }
